@@ -121,3 +121,76 @@ def _c04(bindir, tier, seed):
     if tier == QUICK:
         return shards(bindir, "fmt_driver", "C04", seed, NCPU, ["--mode", "c04", "--cases", "1200"], 240)
     return shards(bindir, "fmt_driver", "C04", seed, NCPU, ["--mode", "c04", "--cases", "60000"], 1800)
+
+
+# ---- C05 / C06 / C19 (fault-free framing) and C07 (framing under injected write failures) ---------------
+FRAME_ASSUME = ["the underlying writer is all-or-nothing (datagram semantics) and its own flush() succeeds, as for the socket adapters",
+                "the degenerate triple (capacity 0, empty terminator, empty metric) carries no bytes and is excluded from exactly-once (run for C20)",
+                "W2/W5 observe successful writes at the far end of the spy channel; failed attempts are inferred from the Err result there"]
+
+FRAME_RULE = ("real MultiLineWriter / buffered sinks run against a model of pending lines (FIFO of metric++terminator, fill counter); every "
+              "underlying write attempt and every result is validated. Workloads: (1) W1 small-scope enumeration on cadence::ext::MultiLineWriter"
+              "<ScriptedWriter>: all capacities 0..=C, terminators \\n, \\r\\n, empty, EVERY op sequence of length <= L over {emit(len 0..=cap+2), flush} "
+              "+ drop; (2) W1 random long histories (capacity <= 1500, 10-2000 ops, lengths biased to exact-fit / one-short / one-over / oversize); "
+              "(3) W2 BufferedSpyMetricSink observed at its channel, incl. default capacity; (4) W5 flush through StatsdClient::flush and "
+              "QueuingMetricSink::flush; (5) W3/W4 buffered UDP/Unix sinks observed at an interposed sendto (sock_driver). distinct = outcome signatures "
+              "(buffered / pre-flush / bypass / exact-fill write / flush-write / failed-... per call) x capacity class x terminator; whole signature for "
+              "short histories, every 3-call window containing a non-trivial outcome for long ones; trivial = only plain buffering")
+
+
+def frame_jobs(bindir, prop, tier, seed, faults):
+    f = "all" if faults else "none"
+    jobs = []
+    if tier == QUICK:
+        en = ["--maxcap", "4", "--maxlen", "4"] if faults else ["--maxcap", "6", "--maxlen", "5"]
+        rnd, spy, dele = 400, 300, 30
+    else:
+        en = ["--maxcap", "5", "--maxlen", "5"] if faults else ["--maxcap", "8", "--maxlen", "6"]
+        rnd, spy, dele = 40000, 30000, 1500
+    base = ["--property", prop, "--faults", f]
+    jobs += shards(bindir, "frame_driver", prop + "-enum", seed, NCPU, base + ["--mode", "enum"] + en, 3000)
+    jobs += shards(bindir, "frame_driver", prop + "-random", seed, NCPU, base + ["--mode", "random", "--cases", str(rnd)], 3000)
+    jobs += shards(bindir, "frame_driver", prop + "-spy", seed, 8, base + ["--mode", "spy", "--cases", str(spy)], 3000)
+    if not faults:
+        jobs += shards(bindir, "frame_driver", prop + "-delegate", seed, 8, base + ["--mode", "delegate", "--cases", str(dele)], 3000)
+    return jobs
+
+
+meta("C05", level="exploration", rule="rule F1 (every write is whole pending lines in order, <= capacity, or the oversize metric alone without terminator); " + FRAME_RULE,
+     assumptions=FRAME_ASSUME, exhaustive_scope="W1 op-sequence enumeration within the stated small scope (the random / spy / delegate / socket parts are sampled)",
+     min_evaluations=20000, must_observe={"underlying_write_attempts": 20000, "enumerated_runs": 10000})
+meta("C06", level="exploration", rule="rule F2 (Ok(n) => n == len; in-order exactly-once conservation; flush Ok leaves nothing, second flush writes nothing; nothing lost at drop; oversize written in its own emit; flush delegation through client and queuing sink); " + FRAME_RULE,
+     assumptions=FRAME_ASSUME, exhaustive_scope="W1 op-sequence enumeration within the stated small scope (the random / spy / delegate / socket parts are sampled)",
+     min_evaluations=20000, must_observe={"metrics_accepted": 20000, "enumerated_runs": 10000, "flush_through_queuing_sink_histories": 10, "flush_through_client_histories": 10})
+meta("C19", level="exploration", rule="rule F4 (writes happen only when the next line does not fit in the remaining space - then ALL pending lines go in one datagram -, on the bypass, on flush/drop with data pending, or as the exact-fill write; a line that still fits never triggers a write); " + FRAME_RULE,
+     assumptions=FRAME_ASSUME, exhaustive_scope="W1 op-sequence enumeration within the stated small scope (the random / spy / delegate / socket parts are sampled)",
+     min_evaluations=20000, must_observe={"datagrams_written": 20000, "enumerated_runs": 10000})
+meta("C07", level="fault_enumeration",
+     rule="rules F1-F3 under injected write failures: for every enumerated history EVERY ok/fail/interrupted assignment to its first 8 underlying write "
+          "attempts (DFS over the attempts that actually occur), plus random histories with failure probability 0-75%, bursts of consecutive failures and "
+          "runs of Interrupted, plus BufferedSpyMetricSink with a bounded channel left full as fault injector, plus non-blocking Unix sockets with a full "
+          "receive queue and scripted errno at an interposed sendto (sock_driver). Oracle: a call returns Ok or the error of an attempt made in that call "
+          "(identity by unique message), an emit that returned Err never shows up in a later write, accepted lines stay pending and leave exactly once, "
+          "whole and in order with the next successful write, no duplicates, no unwind. " + FRAME_RULE,
+     assumptions=FRAME_ASSUME, exhaustive_scope="all fault assignments to the first 8 write attempts of every enumerated W1 history within the small scope",
+     min_evaluations=50000, must_observe={"underlying_write_attempts": 50000, "enumerated_runs": 20000})
+
+
+@plan("C05")
+def _c05(bindir, tier, seed):
+    return frame_jobs(bindir, "C05", tier, seed, False)
+
+
+@plan("C06")
+def _c06(bindir, tier, seed):
+    return frame_jobs(bindir, "C06", tier, seed, False)
+
+
+@plan("C19")
+def _c19(bindir, tier, seed):
+    return frame_jobs(bindir, "C19", tier, seed, False)
+
+
+@plan("C07")
+def _c07(bindir, tier, seed):
+    return frame_jobs(bindir, "C07", tier, seed, True)
